@@ -29,6 +29,8 @@ def main():
         rc = EXIT_CHECKER
     finally:
         smt.cleanup()
+        from .common import NativeServer
+        NativeServer.stop()
     sys.exit(rc)
 
 
